@@ -11,6 +11,7 @@ import (
 	"errors"
 	"fmt"
 	"io"
+	"math"
 
 	"github.com/rpcpool/yellowstone-faithful/indexmeta"
 )
@@ -104,6 +105,10 @@ func (db *DB) GetBucket(i uint) (*Bucket, error) {
 	if i >= uint(db.Header.NumBuckets) {
 		return nil, fmt.Errorf("out of bounds bucket index: %d >= %d", i, db.Header.NumBuckets)
 	}
+	if db.Header.ValueSize > MaxValueSize {
+		// the 8-bit entry stride cannot represent such entries
+		return nil, fmt.Errorf("unsupported value size: %d", db.Header.ValueSize)
+	}
 
 	// Fill bucket handle.
 	bucket := &Bucket{
@@ -140,6 +145,9 @@ func minInt64(a, b int64) int64 {
 }
 
 const HashSize = 3
+
+// MaxValueSize is the largest supported value size: an entry (hash + value) must fit the 8-bit stride.
+const MaxValueSize = math.MaxUint8 - HashSize
 
 func (db *DB) entryStride() uint8 {
 	offsetSize := db.GetValueSize()
